@@ -4,7 +4,7 @@ package pool
 // (real timers with idle times of 200-600 microseconds, random yields at every instrumented
 // statement).  It evaluates the PROPERTIES, not the model:
 //
-//	C10  per-task run counters (exactly once), Submit results, ShutdownNow's returned wrappers run in
+//	C10  wrapper depth (stack frames under which a task runs; layers on returned tasks), per-task run counters (exactly once), Submit results, ShutdownNow's returned wrappers run in
 //	     a marked mode (never both, never neither, never twice), rejected tasks never run, a panicking
 //	     task does not stop the others, accepted tasks of a RUNNING pool get executed (not stranded)
 //	C11  high-water mark of a harness-side running counter and of numGoRunningTasks / totalGo samples
@@ -13,7 +13,7 @@ package pool
 //	C12  Shutdown's channel closes within a generous bound after the last task finishes and not before
 //	     (task completion flags at the instant closure is observed); goroutine dump on hang
 //
-// usage: h c10-pool-stress <seed> <rounds> [focus]      prints "ok rounds=.. tasks=.." or "VIOLATION <kind>: ..."
+// usage: h c10-pool-stress <seed> <rounds> [focus [directed_ms]]   (directed scale-down scenario for focus c10 / c12)   prints "ok rounds=.. tasks=.." or "VIOLATION <kind>: ..."
 // and, for a hang, a goroutine dump on stderr.
 
 import (
@@ -83,6 +83,12 @@ func (t *stask) Run(ctx context.Context) error {
 		r.fail(fmt.Sprintf("highwater: %d tasks execute concurrently, maxGo=%d", n, r.maxGo))
 	}
 	t.ran.Add(1)
+	// the task must run under a bounded number of stack frames: worker -> one taskWrapper -> task (before commit
+	// 4ac6152 every retry of Submit's spin loop added a taskWrapper frame, up to a stack overflow)
+	var pcs [96]uintptr
+	if n := runtime.Callers(0, pcs[:]); n >= 64 {
+		r.fail(fmt.Sprintf("wrapper-depth: task %d runs under at least %d stack frames (Submit nested taskWrappers)", t.id, n))
+	}
 	defer func() {
 		r.running.Add(-1)
 		t.done.Store(true)
@@ -355,6 +361,9 @@ func oneRound(rng *rand.Rand, focus string) (string, int) {
 		// the returned wrappers are run in a marked mode
 		mctx := context.WithValue(context.Background(), markKey, true)
 		for _, t := range returned {
+			if _, d := ekpool.VerifUnwrap(t); d != 1 {
+				r.fail(fmt.Sprintf("wrapper-depth: a task returned by ShutdownNow carries %d taskWrapper layers", d))
+			}
 			_ = t.Run(mctx)
 		}
 	}
@@ -386,6 +395,133 @@ func oneRound(rng *rand.Rand, focus string) (string, int) {
 	return "", ntask
 }
 
+// directedScaleDown is the directed scenario for the done-early clause of C12 / C10: pools that have really scaled above
+// coreGo (initGo 1, coreGo 2, maxGo 6, queue 16; six gated tasks), a backlog of microsecond tasks, Shutdown, gates released.
+// While the backlog drains, above-core workers leave (nothing left for them) exactly while other workers sit between
+// "dequeued a task" and "counted it as running".  Monitor: when Shutdown's channel is observed closed every accepted task
+// must have completed, and no task may observe the pool's context cancelled before it finished.  Several goroutines run
+// fresh pools in parallel for `budget`.
+func directedScaleDown(seed int64, budget time.Duration) (string, int) {
+	const (
+		workers   = 8
+		initGo    = 1
+		coreGo    = 2
+		maxGo     = 6
+		queueSize = 16
+		hangAfter = 15 * time.Second
+	)
+	deadline := time.Now().Add(budget)
+	var failed atomic.Value
+	var trials atomic.Int64
+	var wg sync.WaitGroup
+	fail := func(s string) {
+		if failed.Load() == nil {
+			failed.Store(s)
+		}
+	}
+	for g := 0; g < workers; g++ {
+		wg.Add(1)
+		go func(g int) {
+			defer wg.Done()
+			rnd := rand.New(rand.NewSource(seed*131 + int64(g)))
+			for time.Now().Before(deadline) && failed.Load() == nil {
+				k := trials.Add(1)
+				idle := time.Duration(200+rnd.Intn(401)) * time.Microsecond
+				p, err := ekpool.NewOnDemandBlockTaskPool(initGo, queueSize, ekpool.WithCoreGo(coreGo), ekpool.WithMaxGo(maxGo),
+					ekpool.WithMaxIdleTime(idle))
+				if err != nil {
+					fail("ctor: " + err.Error())
+					return
+				}
+				if err = p.Start(); err != nil {
+					fail("directed: Start: " + err.Error())
+					return
+				}
+				var accepted, finished, sawCancel atomic.Int64
+				submit := func(f func()) bool {
+					e := p.Submit(context.Background(), ekpool.TaskFunc(func(ctx context.Context) error {
+						f()
+						if ctx.Err() != nil {
+							sawCancel.Add(1)
+						}
+						finished.Add(1)
+						return nil
+					}))
+					if e != nil {
+						fail("directed: Submit to a running pool failed: " + e.Error())
+						return false
+					}
+					accepted.Add(1)
+					return true
+				}
+				gate := make(chan struct{})
+				started := make(chan struct{}, maxGo)
+				for i := 0; i < maxGo; i++ {
+					if !submit(func() { started <- struct{}{}; <-gate }) {
+						close(gate)
+						return
+					}
+				}
+				ok := true
+				for i := 0; i < maxGo && ok; i++ {
+					select {
+					case <-started:
+					case <-time.After(hangAfter):
+						ok = false
+					}
+				}
+				if !ok {
+					close(gate)
+					dumpGoroutines("directed-scale-up")
+					fail(fmt.Sprintf("stranded: directed scale-down scenario: the pool did not scale to %d workers for %d gated tasks: %s", maxGo, maxGo, p.VerifSnapshot()))
+					return
+				}
+				n := 1 + rnd.Intn(queueSize)
+				for i := 0; i < n; i++ {
+					d := time.Duration(rnd.Intn(4)) * time.Microsecond
+					if !submit(func() {
+						for st := time.Now(); time.Since(st) < d; {
+						}
+						runtime.Gosched()
+					}) {
+						close(gate)
+						return
+					}
+				}
+				done, err := p.Shutdown()
+				if err != nil {
+					close(gate)
+					fail("directed: Shutdown: " + err.Error())
+					return
+				}
+				close(gate)
+				cfg := fmt.Sprintf("[init=%d core=%d max=%d queue=%d idle=%s backlog=%d] (trial %d, goroutine %d, seed %d)", initGo, coreGo, maxGo, queueSize, idle, n, k, g, seed)
+				select {
+				case <-done:
+					if f, a := finished.Load(), accepted.Load(); f != a {
+						fail(fmt.Sprintf("done-early: directed scale-down scenario: Shutdown's channel is closed while only %d of %d accepted tasks have finished: %s %s", f, a, p.VerifSnapshot(), cfg))
+						return
+					}
+				case <-time.After(hangAfter):
+					dumpGoroutines("directed-shutdown-hang")
+					fail(fmt.Sprintf("shutdown-hang: directed scale-down scenario: Shutdown's channel not closed %s after the call: %s %s", hangAfter, p.VerifSnapshot(), cfg))
+					return
+				}
+				time.Sleep(50 * time.Microsecond)
+				if c := sawCancel.Load(); c != 0 {
+					fail(fmt.Sprintf("done-early: directed scale-down scenario: %d task(s) observed the pool's context cancelled before they finished %s", c, cfg))
+					return
+				}
+			}
+		}(g)
+	}
+	wg.Wait()
+	if v := failed.Load(); v != nil {
+		return v.(string), int(trials.Load())
+	}
+	return "", int(trials.Load())
+}
+
 func stressMain(args []string) {
 	seed, rounds := int64(1), 200
 	focus := ""
@@ -398,6 +534,10 @@ func stressMain(args []string) {
 	if len(args) > 2 {
 		focus = args[2]
 	}
+	directedMs := 1000
+	if len(args) > 3 {
+		directedMs, _ = strconv.Atoi(args[3])
+	}
 	verifhook.SetMode(verifhook.Chaos)
 	rng := rand.New(rand.NewSource(seed))
 	total := 0
@@ -409,7 +549,16 @@ func stressMain(args []string) {
 			return
 		}
 	}
-	fmt.Printf("ok rounds=%d tasks=%d\n", rounds, total)
+	trials := 0
+	if directedMs > 0 && (focus == "" || focus == "c10" || focus == "c12") {
+		msg, n := directedScaleDown(seed, time.Duration(directedMs)*time.Millisecond)
+		trials = n
+		if msg != "" {
+			fmt.Printf("VIOLATION %s\n", msg)
+			return
+		}
+	}
+	fmt.Printf("ok rounds=%d tasks=%d directed_trials=%d\n", rounds, total, trials)
 }
 
 var _ = option.Apply[ekpool.OnDemandBlockTaskPool]
